@@ -193,12 +193,19 @@ type GhostVar struct {
 	Name, Type string
 }
 
+// GhostField: model state of a data structure (e.g. the set of CIDRs a trie holds), addressed like a field.
+type GhostField struct {
+	Struct, Name, Type string
+	Pkg                string
+}
+
 type ContractFile struct {
 	Path      string
 	SpecFuncs []*SpecFunc
 	Lemmas    []*Lemma
 	Funcs     []*FuncContract
 	Ghosts    []GhostVar
+	GhostFields []GhostField
 	Layouts   []LayoutClause
 }
 
@@ -781,6 +788,16 @@ func ParseContractFile(path string, requirePrefix bool) (*ContractFile, error) {
 		case "ghost":
 			if cur == nil || !strings.HasPrefix(strings.TrimSpace(rc.text), "at call ") {
 				f := strings.Fields(rc.text)
+				if len(f) == 3 && f[0] == "field" {
+					// ghost field (*T).name TYPE : abstract (model) state attached to every object of struct type T
+					k := strings.LastIndex(f[1], ".")
+					if k < 0 {
+						return nil, fail(rc, fmt.Errorf("ghost field (*T).name TYPE"))
+					}
+					st := strings.Trim(f[1][:k], "(*)")
+					cf.GhostFields = append(cf.GhostFields, GhostField{Struct: st, Name: f[1][k+1:], Type: f[2]})
+					continue
+				}
 				if len(f) != 2 {
 					return nil, fail(rc, fmt.Errorf("ghost NAME TYPE"))
 				}
